@@ -1297,7 +1297,16 @@ def _do_invalid(self, st):
         diag = ref.diag_marginal(pre.rho, pre.dims, pre.names.index(t))
         if float(np.sum(diag[1:])) != 0.0:
             raise Inapplicable("not exactly the vacuum")
-        fn = self._op_caller(Operation(FockOperationType.Annihilation), entry, targets)
+        if st.get("mode", 0) % 3 == 2 and w.dim(t) == pre.dim_of(t) and pre.dim_of(t) >= 2:
+            # the same request through a user-supplied (non-renormalising) operator: a lowering matrix or
+            # a projector onto an unoccupied level gives an all-zero result on the vacuum as well
+            d_ = pre.dim_of(t)
+            mat = ref.destroy(d_) if st.get("seed", 0) % 2 == 0 else ref.basis_rho(d_, d_ - 1)
+            site["zero_via"] = "custom"
+            fn = self._op_caller(Operation(FockOperationType.Custom, operator=jnp.array(mat)), entry, targets)
+        else:
+            site["zero_via"] = "annihilation"
+            fn = self._op_caller(Operation(FockOperationType.Annihilation), entry, targets)
     elif fault == "missing_param":
         typ = [PolarizationOperationType.RX, PolarizationOperationType.U3, FockOperationType.PhaseShift, FockOperationType.Displace,
                CompositeOperationType.NonPolarizingBeamSplitter, CustomStateOperationType.Custom][st.get("mode", 0) % 6]
